@@ -45,6 +45,7 @@ type specCall struct {
 	Snap []absG `json:"snap"`
 	Stop int    `json:"stop"`
 	Err  string `json:"err"`
+	Ret  int    `json:"ret"`
 }
 
 type pipeCase struct {
@@ -269,6 +270,7 @@ func checkPipeCase(res *Result, pc *pipeCase, alpha []absLine, rng *rand.Rand, f
 	opts := &stack.Opts{}
 	for _, d := range deliveries(lens, rng, full) {
 		src := newSource(data, d.plan, d.dflt, nil, d.withData)
+		src.keepLog = true
 		obs := runStream(src, opts, len(lines)+3)
 		judgePipe(res, pc, pc.Calls, lines, data, obs, src, tag+"/"+d.name, alphaSnapCmp)
 	}
@@ -351,6 +353,50 @@ func judgePipe(res *Result, pc interface{}, calls []specCall, lines [][]byte, da
 	if !okBytes {
 		res.violation(mk("C02", "bytes", "forwarded bytes / remainder differ from every reading the specification allows",
 			map[string]string{"fwd": string(fInt), "rest": string(tInt)}, map[string]string{"fwd": string(fObs), "rest": string(tObs)}))
+	}
+	// C11: at every Read the source sees, all complete pass-through lines delivered so
+	// far have been written, and every call whose ending line is completely
+	// delivered has returned.
+	if len(src.log) > 0 {
+		ends := make([]int, len(lines))
+		off := 0
+		for i, l := range lines {
+			off += len(l)
+			ends[i] = off
+		}
+		isFwd := make([]bool, len(lines)+1)
+		for i := range calls {
+			for _, x := range minus(calls[i].Fwd, calls[i].K1) {
+				isFwd[x] = true
+			}
+		}
+		for _, ev := range src.log {
+			before := ev.Delivered - ev.N
+			m := 0
+			lower := 0
+			for i := range lines {
+				if ends[i] <= before && bytes.HasSuffix(lines[i], []byte("\n")) {
+					m = i + 1
+					if isFwd[i+1] {
+						lower += len(lines[i])
+					}
+				}
+			}
+			wantRet := 0
+			for i := range calls {
+				if calls[i].Ret != 0 && calls[i].Ret <= m {
+					wantRet++
+				}
+			}
+			if ev.Written < lower {
+				res.violation(mk("C11", "withheld", fmt.Sprintf("when the source was asked for more (%d bytes = %d complete lines delivered), only %d bytes had been written; %d bytes of complete pass-through lines were due", before, m, ev.Written, lower), lower, ev.Written))
+				break
+			}
+			if ev.Call < wantRet {
+				res.violation(mk("C11", "late-return", fmt.Sprintf("the line that ends call %d was completely delivered (%d complete lines), yet that call asked the source for more", ev.Call+1, m), wantRet, ev.Call))
+				break
+			}
+		}
 	}
 	// C07: per call delimitation, snapshots, error class, remainder.
 	n := len(obs)
